@@ -283,6 +283,23 @@ def monitor(lm, cfg, t, c):
             bad.append(('srun:node-count-differs', '--nodes %s, placement spans %d' % (c['nodes'], len(want))))
     elif k in ('aprun', 'ccmrun', 'ibrun'):
         total = c['n']
+        if k == 'ibrun' and t['slots'] and all(s['cores'] for s in t['slots']) and t['cpr']:
+            # `ibrun -o off`: rank j runs on task slot off + j of the job (tpn slots per node, nodes in RM order).
+            # Judged only for placements ibrun can express at all.
+            nodes, tpn, cpr = cfg['node_idx'], c['tpn'], t['cpr']
+            s0 = t['slots'][0]
+            if s0['node'] in nodes and s0['cores'][0] % cpr == 0:
+                off0 = nodes.index(s0['node']) * tpn + s0['cores'][0] // cpr
+                expressible = tpn * cpr <= cfg['cpn'] and all(
+                    (off0 + j) // tpn < len(nodes) and s['node'] == nodes[(off0 + j) // tpn]
+                    and s['cores'] == list(range(((off0 + j) % tpn) * cpr, ((off0 + j) % tpn) * cpr + cpr))
+                    for j, s in enumerate(t['slots']))
+                if expressible and len(t['slots']) == n and c['offset'] != off0:
+                    where = [(nodes[(c['offset'] + j) // tpn] if (c['offset'] + j) // tpn < len(nodes) else None, ((c['offset'] + j) % tpn) * cpr)
+                             for j in range(n)]
+                    bad.append(('ibrun:offset-starts-ranks-elsewhere',
+                                '-o %d (tasks per node %d) starts the ranks at (node, first core) %s, the placement is %s'
+                                % (c['offset'], tpn, where, [(s['node'], s['cores'][0]) for s in t['slots']])))
     elif k == 'prte':
         total = c['np']
         got = {}
@@ -307,6 +324,18 @@ def gen_task(rng, lm, cfg):
     cpr = rng.choice([1, 1, 2, 3])
     if lm == 'SRUN' and nslots >= 43 and rng.random() < 0.7:
         nodes = list(range(2, 60))
+    if lm == 'IBRUN' and rng.random() < 0.5:
+        # a placement ibrun can express: ranks on consecutive task slots of the job, from any slot on
+        n   = rng.choice([1, 2, 3, 4, 6, 8])
+        tpn = cfg.get('tpn') or max(1, cpn // (n * cpr))
+        if tpn * cpr <= cpn and n <= tpn * len(nodes):
+            off = rng.randint(0, tpn * len(nodes) - n)
+            slots = []
+            for j in range(n):
+                loc = (off + j) % tpn
+                h = nodes[(off + j) // tpn]
+                slots.append({'host': h, 'node': h, 'cores': list(range(loc * cpr, loc * cpr + cpr)), 'gpus': []})
+            return {'ranks': n, 'cpr': cpr, 'gpus': False, 'slots': slots, 'use_mpi': rng.choice([None, True]), 'exe': True}
     slots = []
     # ranks of a task are grouped by node, nodes in list order (what the continuous scheduler produces),
     # sometimes shuffled (application supplied placements)
@@ -429,7 +458,7 @@ def run(ctx):
                 'executable, use_mpi None/True/False; non-trivial = a command was produced for a placed task')
     ctx.assume += ['what mpirun/mpiexec/srun/prun/ibrun/aprun/ssh do with a command is the interpretation written in '
                    'Model/Launch.lean `procsOn`/`procCount` (trusted); the monitor re-implements it independently',
-                   'PALS placements that are not filled host by host, and the IBRUN offset, are tied to the model but not judged',
+                   'PALS placements that are not filled host by host, and IBRUN placements that are not consecutive task slots, are tied to the model but not judged',
                    'JSRUN, FLUX and DRAGON are not covered']
     ctx.trusted += ['harness/props/c09.py: command parser, RMInfo stub, lm_info records']
 
